@@ -176,19 +176,21 @@ def CdsIn.letters (c : CdsIn) : Option Str :=
 /-- the complete codons after skipping `frame` bases -/
 def CdsIn.codons (c : CdsIn) : Option (List Str) := c.letters.map (fun l => triples (l.drop c.frame))
 
-/-- 5'-partial ⇔ the first codon is not a start codon of the table (`none`: no first codon / unknown table) -/
+/-- 5'-partial ⇔ the first codon is not a start codon of the table; a CDS without a complete codon has no first
+    codon that could be one, so it is 5'-partial (`none`: unreadable letters / unknown table) -/
 def CdsIn.startPartial (c : CdsIn) (table : Nat) : Option Bool :=
   match c.codons, startCodonsOf table with
   | some (cod :: _), some starts => some (!starts.contains cod)
+  | some [], some _ => some true
   | _, _ => none
 
-/-- the CDS ends in frame on a stop codon -/
+/-- the CDS ends in frame on a stop codon (never, when it holds no complete codon) -/
 def CdsIn.endsOnStop (c : CdsIn) : Option Bool :=
   match c.letters, c.codons with
   | some l, some cods =>
     match cods.getLast? with
     | some last => some (decide (c.frame ≤ l.length) && decide ((l.length - c.frame) % 3 = 0) && isStop last)
-    | none => none
+    | none => some false
   | _, _ => none
 
 /-- 3'-partial ⇔ it does not end in frame on a stop codon -/
@@ -278,7 +280,7 @@ structure Want where
 def isKey (k : String) : Str → Bool := fun s => s = k.toList
 
 /-- the features of gene number `i` (1-based), in file order; `none` = the gene is outside what C17 claims
-    (mixed coding / non-coding isoforms, a CDS without a complete codon, unreadable letters) -/
+    (mixed coding / non-coding isoforms, unreadable letters) -/
 def wantGene (c : CollIn) (tag : Nat) (g : GeneIn) : Option (List Want) :=
   match g.span, g.pseudo c.genome with
   | some span, some ps =>
